@@ -17,8 +17,8 @@ RULE = ('logit matrices T(3-40) x C(3-12): dense at several temperatures, sparse
 ASSUMPTIONS = ['shift invariance is judged on matrices whose entries are all stored (sparse-with-floor replaces pruned entries by a fixed floor, so a shift of the stored ones is not a shift of "all logits of the frame")',
                'no stored logit is exactly 0.0', 'tolerance 1e-9 (float64)']
 N = {'quick': 3000, 'thorough': 100000}
-CLASSES = ['dense', 'dense_peaky', 'sparse_floor', 'onehot', 'transformer', 'bag', 'bag_lm', 'bag_extreme', 'threshold', 'alto_wc', 'tiny_logits']
-REQUIRED = ['tiny_logit_lines', 'repeated_calls_checked', 'bag_history_steps', 'repo_tests_under_contracts', 'line_conf_checked', 'shift_checked', 'onehot_checked', 'letter_conf_checked', 'page_conf_checked', 'bag_checked', 'monotone_checked', 'wc_checked',
+CLASSES = ['dense', 'dense_peaky', 'sparse_floor', 'onehot', 'transformer', 'bag', 'bag_lm', 'bag_extreme', 'threshold', 'alto_wc', 'tiny_logits', 'alto_word_onehot', 'parser_update']
+REQUIRED = ['word_onehot_lines', 'parser_updates', 'tiny_logit_lines', 'repeated_calls_checked', 'bag_history_steps', 'repo_tests_under_contracts', 'line_conf_checked', 'shift_checked', 'onehot_checked', 'letter_conf_checked', 'page_conf_checked', 'bag_checked', 'monotone_checked', 'wc_checked',
             'contract:get_line_confidence in [0,1], one per label', 'contract:posteriors <= 0 and sum to 1', 'contract:compute_line_confidence in [0,1]']
 TOL = 1e-9
 
@@ -38,6 +38,13 @@ def gen(rng, i, ctx):
         vis = [float(-rng.random() * mag) for _ in range(n)]
         lm = None if cls == 'bag' else [float(-rng.random() * 20) for _ in range(n)]
         return {'cls': cls, 'vis': vis, 'lm': lm, 'weight': float(rng.choice([0, 0.5, 1, 3]))}
+    if cls == 'alto_word_onehot':
+        # two words, the second also occurring inside (or equal to) the first; the frames of ONE of them are one-hot, the other's are noisy
+        w2 = ''.join('abcd'[int(k)] for k in rng.integers(0, 4, size=int(rng.integers(1, 4))))
+        w1 = (''.join('abcd'[int(k)] for k in rng.integers(0, 4, size=int(rng.integers(0, 3)))) + w2) if rng.random() < 0.7 else w2
+        return {'cls': cls, 'words': [w1, w2], 'onehot_word': int(rng.integers(0, 2)), 'seed': int(rng.integers(0, 1 << 30))}
+    if cls == 'parser_update':
+        return {'cls': cls, 'seed': int(rng.integers(0, 1 << 30)), 'n': int(rng.integers(1, 5))}
     C = int(rng.integers(3, 13))
     L = int(rng.integers(1, 9))
     labels = [int(x) for x in rng.integers(0, C - 1, size=L)]
@@ -133,6 +140,10 @@ def check(case, mon, ctx):
     cls = case['cls']
     if cls.startswith('bag'):
         return check_bag(case, mon, ctx)
+    if cls == 'alto_word_onehot':
+        return check_word_onehot(case, mon, ctx)
+    if cls == 'parser_update':
+        return check_parser_update(case, mon, ctx)
     lg, labels = case['logits'], case['labels']
     C = lg.shape[1]
     if len(labels) >= 2:
@@ -299,3 +310,103 @@ def extra(mon, ctx):
     for v in res['violations']:
         mon.cur_desc = v.get('witness')
         mon.violation(v['clause'], dict(v['detail'] if isinstance(v['detail'], dict) else {'detail': v['detail']}, during='repository test suite'), witness=v.get('witness'))
+
+
+def check_word_onehot(case, mon, ctx):
+    """a word all of whose frames are one-hot must be exported with word confidence 1, also when the same letters occur in the previous word"""
+    L = ctx.layout
+    rng = np.random.default_rng(case['seed'])
+    chars = list('abcd') + [' ']
+    C = len(chars) + 1
+    text = ' '.join(case['words'])
+    labels = [chars.index(ch) for ch in text]
+    path, owner = [C - 1, C - 1], [None, None]
+    widx = 0
+    prev = None
+    for ch, lab in zip(text, labels):
+        if ch == ' ':
+            widx += 1
+        if lab == prev:
+            path.append(C - 1); owner.append(widx)
+        for _ in range(int(rng.integers(1, 3))):
+            path.append(lab); owner.append(widx if ch != ' ' else -1)
+        path.append(C - 1); owner.append(widx if ch != ' ' else -1)
+        prev = lab
+    path += [C - 1, C - 1]; owner += [None, None]
+    T = len(path)
+    lg = rng.normal(size=(T, C)) * 1.5
+    lg[np.arange(T), path] += 3.0                         # noisy but decodable everywhere ...
+    hot = case['onehot_word']
+    # ... except the frames of the chosen word and the separator next to it: exactly one-hot there
+    for t in range(T):
+        if owner[t] == hot or owner[t] == -1 or owner[t] is None:
+            lg[t] = -60.0
+            lg[t, path[t]] = 40.0
+    lg[lg == 0] = 0.01
+    baseline, heights, poly = genlib.straight_line_geometry(rng)
+    page = L.PageLayout(id='p', page_size=(1500, 2000))
+    reg = L.RegionLayout('r1', np.array([[0, 0], [2000, 0], [2000, 1500], [0, 1500]]))
+    line = L.TextLine(id='r1-l1', baseline=baseline, polygon=poly, heights=heights, transcription=text, logits=sparse.csc_matrix(lg),
+                      characters=chars + ['<blank>'], logit_coords=[0, T])
+    reg.lines.append(line); page.regions.append(reg)
+    xml = page.to_altoxml_string()
+    wcs = re.findall(r'<String[^>]*CONTENT="([^"]*)"[^>]*?(?:WC="([^"]*)")?[^>]*/?>', xml)
+    got = [(c, float(w)) for c, w in re.findall(r'CONTENT="([^"]*)"[^>]*\bWC="([^"]*)"', xml)]
+    if len(got) != 2:
+        got2 = re.findall(r'WC="([^"]*)"', xml)
+        if len(got2) != 2:
+            return      # alignment failed for this noise draw: no word confidences are written (fallback branch)
+        got = list(zip(case['words'], [float(x) for x in got2]))
+    mon.count('word_onehot_lines')
+    mon.mark_nontrivial()
+    if not in_unit([w for _, w in got]):
+        mon.violation('word-confidence-in-unit-interval', {'text': text, 'wc': got})
+    if abs(got[hot][1] - 1.0) > 0.006:
+        mon.violation('one-hot-gives-1', {'function': 'ALTO word confidence', 'text': text, 'one_hot_word': case['words'][hot], 'word_confidences': got,
+                      'note': 'every frame of this word (and of the neighbouring separator) is one-hot, the other word is noisy'})
+
+
+def check_parser_update(case, mon, ctx):
+    """PageParser.process_page on a layout whose lines already carry a confidence (an earlier run, or conf attributes of the input PAGE XML)
+    and logits: the reported confidence must be the one computed from the line's current posteriors"""
+    import configparser
+    L = ctx.layout
+    rng = np.random.default_rng(case['seed'])
+    cfg = configparser.ConfigParser()
+    cfg.read_dict({'PAGE_PARSER': {'RUN_LAYOUT_PARSER': 'no', 'RUN_LINE_CROPPER': 'no', 'RUN_OCR': 'no', 'RUN_DECODER': 'no'}})
+    import torch
+    parser = ctx.pp.PageParser(cfg, device=torch.device('cpu'))
+    page = L.PageLayout(id='p', page_size=(100, 100))
+    reg = L.RegionLayout('r', np.array([[0, 0], [10, 0], [10, 10]]))
+    exp = []
+    for k in range(case['n']):
+        C = int(rng.integers(3, 8))
+        labels = [int(x) for x in rng.integers(0, C - 1, size=int(rng.integers(1, 6)))]
+        path = genlib.path_for_labels(rng, labels, C - 1)
+        mode = str(rng.choice(['onehot', 'noisy', 'peaky']))
+        lg = genlib.logits_for_path(rng, path, C, mode=mode)
+        old = [None, 0.0, 0.53, 1.0][int(rng.integers(0, 4))]
+        line = L.TextLine(id='l%d' % k, logits=sparse.csc_matrix(lg), characters=[chr(97 + c) for c in range(C - 1)] + ['_'], logit_coords=[0, len(path)],
+                          transcription='x', transcription_confidence=old)
+        reg.lines.append(line)
+        exp.append((mode, old))
+    page.regions.append(reg)
+    page = parser.process_page(None, page)
+    for line, (mode, old) in zip(reg.lines, exp):
+        mon.count('parser_updates')
+        dense = line.get_dense_logits()
+        lp = dense - np.logaddexp.reduce(dense, axis=1)[:, None]
+        ids, best = lp.argmax(axis=1), np.exp(lp.max(axis=1))
+        # worst, over runs of equal arg-max, of the best posterior inside the run
+        runs, prev = [], None
+        for i_, b_ in zip(ids, best):
+            if i_ != prev:
+                runs.append(b_); prev = i_
+            else:
+                runs[-1] = max(runs[-1], b_)
+        want = float(min(runs))
+        got = line.transcription_confidence
+        if got is None or not in_unit(got) or abs(float(got) - want) > 1e-9:
+            mon.violation('computed-from-normalised-posteriors', {'function': 'PageParser.process_page / update_confidences', 'posteriors': mode, 'confidence_before': old,
+                          'confidence_after': got, 'expected': want})
+    mon.mark_nontrivial()
